@@ -302,6 +302,20 @@ fn explore(plan: &Plan, kf: &[KnownFinding], prop: &str) -> Stats {
             let order = rd.unk_order();
             let mut rd_k2 = rd.clone();
             rd_k2.astral_takes_nul = true;
+            // C01: "all options" includes how they were reached: the same final values after a
+            // detour of option calls must give the same tokenizer
+            let detoured = if which == Which::C01 && ui % 2 == 0 {
+                let (d2, _) = u.build().unwrap();
+                match make_tokenizer_detour(d2, opts, ui / 2) {
+                    Ok(t2) => Some(t2),
+                    Err(e) => {
+                        st.violation(finding("option-detour-rejected", format!("the option values {:?} are accepted directly but not after a detour of option calls: {e}", opts), u, opts, "", json!({"detour": (ui / 2) % 3})));
+                        None
+                    }
+                }
+            } else {
+                None
+            };
             // C01 / C02: the statements hold on a reused worker as well (enumeration order, then
             // reverse order); the fresh-worker tokens are the reference for that pass
             let reuse = which != Which::C03;
@@ -346,6 +360,20 @@ fn explore(plan: &Plan, kf: &[KnownFinding], prop: &str) -> Stats {
                     }
                     Ok(r) => r,
                 };
+                if let Some(t2) = &detoured {
+                    st.count("sentences_on_a_tokenizer_configured_through_a_detour");
+                    let r2 = run_fresh(t2, s, false).map(|r| r.tokens);
+                    if r2.as_ref().ok() != Some(&run.tokens) {
+                        st.violation(finding(
+                            "option-history-changes-result",
+                            format!("a tokenizer whose options reached {:?} through a detour (variant {}) gives {:?}, the directly configured one {:?}", opts, (ui / 2) % 3, r2.as_ref().map(|t| t.iter().map(|x| x.surface.clone()).collect::<Vec<_>>()), run.tokens.iter().map(|x| x.surface.clone()).collect::<Vec<_>>()),
+                            u,
+                            opts,
+                            s,
+                            json!({"detour": (ui / 2) % 3}),
+                        ));
+                    }
+                }
                 if reuse {
                     let w = &mut reused;
                     let r = guard(|| {
@@ -476,8 +504,8 @@ fn explore(plan: &Plan, kf: &[KnownFinding], prop: &str) -> Stats {
                     }
                 }
             }
-            // reverse order (longer sentences first) on one worker
-            if reuse {
+            // reverse order (longer sentences first) on one worker (C02: every second dictionary)
+            if reuse && (which != Which::C02 || ui % 2 == 0) {
                 let mut reused = t.new_worker();
                 let mut reported = 0;
                 for (si, ft) in fresh_tokens.iter().rev() {
@@ -594,6 +622,7 @@ pub fn run(which: Which, tier: Tier) -> i32 {
             universes.extend(u_nul(tier));
             universes.extend(u_k1(tier));
             universes.extend(u_big(tier));
+            universes.extend(u_single(tier));
             max_len = tier.pick(4, 6);
         }
         Which::C02 => {
@@ -603,6 +632,7 @@ pub fn run(which: Which, tier: Tier) -> i32 {
             uu.retain(|u| u.name.contains("mult2") && u.name.contains("a+ab"));
             universes.extend(uu);
             universes.extend(u_big(tier));
+            universes.extend(u_single(tier));
             max_len = tier.pick(5, 6);
         }
         Which::C03 => {
@@ -625,7 +655,7 @@ pub fn run(which: Which, tier: Tier) -> i32 {
         }
     }
     rep.rule = format!(
-        "state = (dictionary of a finite family, option setting, sentence); successor = append one character of the universe's alphabet; every sentence of length <= {max_len} is tokenized by the real code on a fresh worker and compared with the reference; for C01/C02 every sentence is also tokenized on one reused worker in enumeration order and on another in reverse order, where it must give the same tokens; distinct = distinct (dictionary, options, token sequence) outcomes"
+        "state = (dictionary of a finite family, option setting, sentence); successor = append one character of the universe's alphabet; every sentence of length <= {max_len} is tokenized by the real code on a fresh worker and compared with the reference; for C01/C02 every sentence is also tokenized on one reused worker in enumeration order and on another in reverse order, where it must give the same tokens; for C01 every second dictionary is also configured through a detour of option calls (opposite values first / other order and twice / on-off-final) and must tokenize identically; distinct = distinct (dictionary, options, token sequence) outcomes"
     );
     rep.bounds = json!({"max_sentence_len": max_len, "universes": universes.len(), "option_settings_per_universe": universes.iter().map(|u| u.opts.len()).max()});
     rep.assumptions = vec![
@@ -666,6 +696,7 @@ pub fn run(which: Which, tier: Tier) -> i32 {
             "sentences_longer_than_32_chars",
             "sentences_with_more_than_256_nodes_at_a_boundary",
             "sentences_on_a_reused_worker",
+            "sentences_on_a_tokenizer_configured_through_a_detour",
         ],
         Which::C02 => vec![
             "sentences_with_more_than_16_nodes_at_a_boundary",
